@@ -54,8 +54,14 @@ type Opts struct {
 	CleanerInterval time.Duration
 }
 
+const minimumSize = 1024
+
 func (opts *Opts) init() {
-	utils.SetDefaultNum(&opts.Size, 1024)
+	// The minimum size is 1024. A smaller (or negative) size would give the
+	// shards of the underlying map a zero, that is unlimited, capacity.
+	if opts.Size < minimumSize {
+		opts.Size = minimumSize
+	}
 	utils.SetDefaultNum(&opts.CleanerInterval, defaultCleanerInterval)
 }
 
